@@ -142,4 +142,92 @@ end File
 
 end Bystanders
 
+-- ====================================================================== 2. no payload aborts the run
+section NeverAborts
+open TLX.OutBytes TLX.Lemmas.OutBytes
+
+/-- every field of the frame holds its value and the time stamp fits 64 bits of microseconds: what the writer needs -/
+def Writable (q : Pipeline.OutPkt) : Prop := Fits (Frame.ofOutPkt q) ∧ (Frame.ofOutPkt q).ts < 2 ^ 64
+
+/-- **No exception escapes a session, whatever it is fed.** For every capture item list, key log, options: every TLS
+    conversation's `Session.decrypt()` returns (the state machine catches what it raises: `C03.run_never_raises`; the builder
+    never divides by zero: every released record has a carrier), and no QUIC session has raised. -/
+theorem sessions_never_raise (o : Opts) (fk : Option (List Keylog.Key)) (X : List (Item Keylog.Key)) :
+    (∀ s ∈ tlsConvs H P info o X, (Pipeline.connOut H P info s.st (keysOf fk X)).isSome) ∧
+    (∀ s ∈ quicSess mask H P info o fk X, s.st.raised = none) := by
+  refine ⟨fun s _ => (C01Pipeline.connOut_never_raises H P info s.st _).2.2, ?_⟩
+  have h3 := (runItems_proj (Pipeline.tlsMachine H P info) (quicMachine mask H P info) o X
+    (⟨fk.getD [], [], []⟩ : State Keylog.Key Pipeline.Conn QConn)).2.2
+  intro s hs
+  unfold quicSess at hs
+  simp only at h3
+  rw [← h3] at hs
+  exact C02Pipeline.quic_machine_never_raises mask H P info (Pipeline.tlsMachine H P info) o X _ (by simp) s hs
+
+/-- **C03, whole program: no payload aborts the run.** ANY capture file the read loop gets through (`hread`: the reader
+    accepts the container, every secrets block is ASCII, dpkt dissects every frame, no `-c` length overflows — nothing here
+    looks INSIDE a TCP / UDP payload), ANY key-log text (`getKeysFromString` is total: lines that are not secret lines are
+    skipped, malformed hex is skipped by the pattern), any options that parse (`hopt`). Whatever the TCP and UDP payloads
+    contain — bit flips, truncation inside records, swapped or repeated records, garbage, HTTP on port 443, QUIC-looking
+    noise, wrong versions, undecryptable data — the run ends in one of two ways:
+    * it writes the output file `f`: exactly when every frame it built is `Writable`;
+    * or the WRITER raises on a frame that is not: a port ≥ 2^16 (only through `-m 443:70000`), a sequence / acknowledgement
+      number ≥ 2^32 (a direction exporting ≥ 4 GiB), an IP length above 65535 (a reassembled record exported in one segment
+      that is longer than any IPv4 packet: needs a captured segment > 64 KiB, i.e. `ip.len = 0` offload captures), a time
+      stamp ≥ 2^64 µs. These are ranges of FIELDS; no byte of payload content is among them.
+    It never dies in a session (`sessions_never_raise`) and never with a message about options. -/
+theorem payloads_never_abort (args : Args) (legacy : Bool) (kl : Option Keylog.Str) (capture : Bytes)
+    (hopt : optionsBad (freshState : Prior) args = false)
+    (X : List (Item Keylog.Key)) (IS : List (Nat × Pipeline.Info))
+    (hread : Ingest.itemsWith Keylog.srcHexClass args.checksumTest legacy capture = .ok (X, IS)) :
+    ∃ out, framesFrom mask H P freshState args (fileKeysOf kl) X (Ingest.lookup IS) = .ok out ∧
+      ((∃ f, exportFile mask H P args legacy kl capture = .file f) ∨
+       (∃ e, exportFile mask H P args legacy kl capture = .abort (.write e))) ∧
+      ((∃ f, exportFile mask H P args legacy kl capture = .file f) ↔ ∀ q ∈ out, Writable q) := by
+  unfold exportFile
+  rcases Export.exportFrom_stages mask H P freshState args legacy kl capture hopt with
+    ⟨e, hi, _⟩ | ⟨xs, is, out, hi, hf, hw⟩
+  · rw [hread] at hi; cases hi
+  rw [hread] at hi
+  simp only [Except.ok.injEq, Prod.mk.injEq] at hi
+  obtain ⟨rfl, rfl⟩ := hi
+  have hwf : ∀ fr ∈ out.map Frame.ofOutPkt, fr.WF := by
+    intro fr hfr
+    obtain ⟨q, hq, rfl⟩ := List.mem_map.mp hfr
+    exact Lemmas.Export.framesFrom_wf mask H P freshState args _ X _ out
+      (Lemmas.Export.itemsWith_good _ _ _ _ _ _ hread) hf q hq
+  have hiff := C06Bytes.fileOf_ok_iff (out.map Frame.ofOutPkt) hwf
+  have hfits : (∀ fr ∈ out.map Frame.ofOutPkt, (∃ b, serializeFrame fr = .ok b) ∧ fr.ts < 2 ^ 64) ↔
+      ∀ q ∈ out, Writable q := by
+    constructor
+    · intro h q hq
+      obtain ⟨⟨b, hb⟩, ht⟩ := h _ (List.mem_map.mpr ⟨q, hq, rfl⟩)
+      refine ⟨?_, ht⟩
+      rcases serialize_cases (Frame.ofOutPkt q) with ⟨hF, _⟩ | ⟨_, e, he⟩
+      · exact hF
+      · rw [he] at hb; cases hb
+    · intro h fr hfr
+      obtain ⟨q, hq, rfl⟩ := List.mem_map.mp hfr
+      obtain ⟨hF, ht⟩ := h q hq
+      rcases serialize_cases (Frame.ofOutPkt q) with ⟨_, he⟩ | ⟨hn, _⟩
+      · exact ⟨⟨_, he⟩, ht⟩
+      · exact absurd hF hn
+  refine ⟨out, hf, ?_, ?_⟩
+  · rcases hw with ⟨e, _, he⟩ | ⟨f, _, he⟩
+    · exact .inr ⟨e, he⟩
+    · exact .inl ⟨f, he⟩
+  · rw [← hfits, ← hiff]
+    constructor
+    · rintro ⟨f, hfile⟩
+      rcases hw with ⟨e, _, he⟩ | ⟨f', hw', _⟩
+      · rw [he] at hfile; cases hfile
+      · exact ⟨f', hw'⟩
+    · rintro ⟨f, hw'⟩
+      rcases hw with ⟨e, hwe, _⟩ | ⟨f', _, he⟩
+      · have : fileOf out = .ok f := hw'
+        rw [hwe] at this; cases this
+      · exact ⟨f', he⟩
+
+end NeverAborts
+
 end TLX.Props.ExportFaults
